@@ -1,8 +1,10 @@
 //! pwsim — deterministic simulator with fault injection for `piecewise_polynomial`.
 
 mod cursor;
+mod dd;
 mod engine;
 mod funcs;
+mod integ;
 mod pieces;
 mod rng;
 
@@ -107,6 +109,7 @@ fn dispatch(prop: &str, a: &Args, digest_only: bool) -> i32 {
         "C03" => run(cursor::C03, a, digest_only),
         "C12" => run(cursor::C12, a, digest_only),
         "C16" => run(cursor::C16, a, digest_only),
+        "C11" => run(integ::C11, a, digest_only),
         _ => {
             eprintln!("harness error: no world for property {prop}");
             2
@@ -146,6 +149,7 @@ fn main() {
                 Some("C03") => replay_world(Arc::new(cursor::C03), &doc),
                 Some("C12") => replay_world(Arc::new(cursor::C12), &doc),
                 Some("C16") => replay_world(Arc::new(cursor::C16), &doc),
+                Some("C11") => replay_world(Arc::new(integ::C11), &doc),
                 _ => {
                     eprintln!("harness error: replay file names no known property");
                     2
